@@ -951,9 +951,14 @@ class Curve(BaseCurve):
         for newvector, matrix in zip(newvectors, matrices):
             matrix = np.array(matrix)
             newcurve = Curve(newvector)
-            newcurve.ctrlpoints = np.dot(matrix, self.ctrlpoints)
-            if self.weights is not None:
-                newcurve.weights = np.dot(matrix, self.weights)
+            if self.weights is None:
+                newcurve.ctrlpoints = np.dot(matrix, self.ctrlpoints)
+            else:
+                newweights = np.dot(matrix, self.weights)
+                ctrlpoints = [wi * pt for wi, pt in zip(self.weights, self.ctrlpoints)]
+                ctrlpoints = np.dot(matrix, ctrlpoints)
+                newcurve.ctrlpoints = [pt / wi for pt, wi in zip(ctrlpoints, newweights)]
+                newcurve.weights = newweights
             newcurves.append(newcurve)
         return tuple(newcurves)
 
